@@ -86,8 +86,18 @@ pub fn is_custom_split_point(text: &str, e: usize) -> bool {
     run > 0 && run % 2 == 0
 }
 
+/// How the options reach `wrap` / `fill`: by reference (`From<&Options>`), by value, or as a
+/// bare width (`From<usize>`, i.e. `Options::new(width)`; only for the default configuration).
+#[derive(Clone, Copy, Debug, PartialEq)]
+pub enum Entry {
+    Ref,
+    Owned,
+    Usize,
+}
+
 #[derive(Clone, Copy, Debug, PartialEq)]
 pub struct Cfg {
+    pub entry: Entry,
     pub width: usize,
     pub sep: Sep,
     pub alg: Alg,
@@ -140,6 +150,28 @@ impl Cfg {
             .subsequent_indent(self.si)
             .line_ending(if self.crlf { LineEnding::CRLF } else { LineEnding::LF })
     }
+    /// the documented defaults of `Options::new(width)` for this feature set
+    pub fn is_default(&self) -> bool {
+        #[cfg(feature = "full")]
+        let (sep, alg) = (Sep::Uni, Alg::Opt(DEFAULT_PEN));
+        #[cfg(not(feature = "full"))]
+        let (sep, alg) = (Sep::Ascii, Alg::FirstFit);
+        self.sep == sep && self.alg == alg && self.spl == Spl::Hyphen && self.bw && self.ii.is_empty() && self.si.is_empty() && !self.crlf
+    }
+    pub fn wrap<'a>(&self, text: &'a str, o: &Options<'a>) -> Vec<std::borrow::Cow<'a, str>> {
+        match self.entry {
+            Entry::Ref => textwrap::wrap(text, o),
+            Entry::Owned => textwrap::wrap(text, o.clone()),
+            Entry::Usize => textwrap::wrap(text, self.width),
+        }
+    }
+    pub fn fill(&self, text: &str, o: &Options<'_>) -> String {
+        match self.entry {
+            Entry::Ref => textwrap::fill(text, o),
+            Entry::Owned => textwrap::fill(text, o.clone()),
+            Entry::Usize => textwrap::fill(text, self.width),
+        }
+    }
     pub fn ending(&self) -> &'static str {
         if self.crlf {
             "\r\n"
@@ -162,7 +194,12 @@ impl Cfg {
             self.width.to_string()
         };
         format!(
-            "width={} sep={:?} alg={:?} splitter={:?} break_words={} initial_indent={:?} subsequent_indent={:?} ending={}",
+            "{}width={} sep={:?} alg={:?} splitter={:?} break_words={} initial_indent={:?} subsequent_indent={:?} ending={}",
+            match self.entry {
+                Entry::Ref => "",
+                Entry::Owned => "options passed by value; ",
+                Entry::Usize => "options passed as a bare width (Options::new(width)); ",
+            },
             w,
             self.sep,
             self.alg,
@@ -212,7 +249,7 @@ impl Gamma {
                     for &spl in &self.spls {
                         for &bw in &self.bws {
                             for &(ii, si) in &self.indents {
-                                v.push(Cfg { width: 0, sep, alg, spl, bw, ii, si, crlf });
+                                v.push(Cfg { entry: Entry::Ref, width: 0, sep, alg, spl, bw, ii, si, crlf });
                             }
                         }
                     }
